@@ -19,6 +19,7 @@ CONSTANTS
   Serialized = FALSE
   DirectAPI = TRUE
   MaxLen = 50
+  Wanted = {}
 CHECK_DEADLOCK FALSE
 ACTION_CONSTRAINT CoarseSchedule
 INVARIANTS TypeOK PeersResult
